@@ -13,6 +13,16 @@
        mode when a line ending follows that byte: `$x\n` gives `$x` then `\n`,
        `$x\r…` gives `$x` (the fhold makes the DFA re-read the `\r`, fail, and
        fall back to the two-byte match), `$\r\n` gives `$\r` then `\n`.
+     * a carriage return that is not followed by a line feed has NO rule in
+       heredoc and bare-template mode (StringLiteralChars excludes it, Newline
+       is `'\r'? '\n'`): the DFA stops there.  In a heredoc (and anywhere below
+       the top level) that is the error state of Scanner.v: the rest of the
+       input becomes one TokenInvalid.  At the top level of a BARE template
+       scanTokens (scan_tokens.rl, after `write exec`; /repo 70c81c0) emits the
+       one byte as a TokenStringLit and re-enters the bareTemplate machine
+       (`cs = hcltok_en_bareTemplate; goto rescan`): rule [m_lone_cr] of
+       [rules_bare] below.  (Before that fix the whole rest of the template —
+       later lines, `${`/`%{` sequences and escapes included — was ONE literal.)
      * comments `#…`/`//…` run to the first `\n` (a `\r` is ordinary content)
        and include it; `/* … */` ends at the first `*/` at offset >= 2.
      * ID_Start / ID_Continue are alternations of BYTE sequences (not code
@@ -372,6 +382,23 @@ Definition m_bare_lit (s : list Z) : option (nat * nat) :=
            match (k + newline_len (skipn k s))%nat with O => None | n => same n end
   end.
 
+(* scanTokens' recovery at the top level of a bare template (scan_tokens.rl after
+   `write exec`): `cs < hcltok_first_final && mode == scanTemplate &&
+   len(stack) == 0 && data[ts] == '\r'` -> emitToken(TokenStringLit, ts, ts+1),
+   p = ts+1, cs = hcltok_en_bareTemplate, rescan.
+   As a rule of the bareTemplate scanner: a CR that no Newline claims.  It is the
+   only rule of [rules_bare] that can match there (m_bare_lit's `Newline?` needs
+   the LF; the others need `$`, `%` or a byte >= 0x80), so "the machine stopped
+   with ts on a CR" and "this rule matches at a scanner start" are the same
+   event; and the bareTemplate scanner only ever runs as the BOTTOM frame of
+   template mode (nothing fcalls it: HclLexProofs.bare_is_top_level), which is
+   Go's `mode == scanTemplate && len(stack) == 0`. *)
+Definition m_lone_cr (s : list Z) : option (nat * nat) :=
+  match s with
+  | 13 :: r => if starts_with 10 r then None else same 1
+  | _ => None
+  end.
+
 (* ---- actions --------------------------------------------------------------- *)
 
 Definition a_tok (ty : Z) : hstate -> list Z -> option (emit * hstate) :=
@@ -518,7 +545,8 @@ Definition rules_bare : list hrule :=
   [ R (m_tmpl_open 36) (a_begin_tmpl TokenTemplateInterp);
     R (m_tmpl_open 37) (a_begin_tmpl TokenTemplateControl);
     R m_bare_lit (a_tok TokenStringLit);
-    R m_broken (a_tok TokenBadUTF8) ].
+    R m_broken (a_tok TokenBadUTF8);
+    R m_lone_cr (a_tok TokenStringLit) ].
 
 Definition rules_ident_only : list hrule :=
   [ R m_ident (a_tok TokenIdent);
